@@ -237,23 +237,41 @@ def sample_view(case):
 
 
 # ----------------------------------------------------------------------------- the check
+class ReachLoopTooLong(Exception):
+    """The reachability loop exceeded a (very generous) sweep cap; carries the values reached so far."""
+
+    def __init__(self, values, sweeps):
+        super().__init__(f"more than {sweeps} sweeps")
+        self.values, self.sweeps = values, sweeps
+
+
+REACH_SWEEP_CAP = 600000
+
+
 def run_solver_api(game, theta, prune=False):
-    """check_game + init_states + Solver(threshold).solve_reachability; returns (p_hat, sweeps)."""
+    """check_game + init_states + Solver(threshold).solve_reachability; returns (p_hat, sweeps).
+    The loop is capped: iteration from below is monotone and converges on every game, but a broken
+    loop may not, and then the values reached so far are still examined."""
     r = repo()
     tad = r.tad
     g = copy_game(game)
-    with sweep_budget(tad, None, None):
-        sg = tad.StochasticGame(**g)
-        sg.check_game()
-        state_list = sg.init_states()
-        solver = tad.Solver(state_list=state_list, threshold=theta)
-        try:
-            _, sweeps = solver.solve_reachability(g["transition_list"], g["final_states"], prune)
-        except ValueError as e:
-            if prune and "no solution" in str(e).lower():
-                return [s.reach_probability for s in state_list], None
-            raise
-        return [s.reach_probability for s in state_list], sweeps
+    n = len(game["players"])
+    state_list = None
+    try:
+        with sweep_budget(tad, REACH_SWEEP_CAP, n):
+            sg = tad.StochasticGame(**g)
+            sg.check_game()
+            state_list = sg.init_states()
+            solver = tad.Solver(state_list=state_list, threshold=theta)
+            try:
+                _, sweeps = solver.solve_reachability(g["transition_list"], g["final_states"], prune)
+            except ValueError as e:
+                if prune and "no solution" in str(e).lower():
+                    return [s.reach_probability for s in state_list], None
+                raise
+            return [s.reach_probability for s in state_list], sweeps
+    except BudgetExceeded:
+        raise ReachLoopTooLong([s.reach_probability for s in state_list] if state_list else None, REACH_SWEEP_CAP)
 
 
 def classify(v, game, facts, pstar):
@@ -352,8 +370,23 @@ def check_small(case, v):
         sprune = bool(case.get("sprune"))
         try:
             phat, sweeps = run_solver_api(game, theta, sprune)
-        except BudgetExceeded:
-            raise
+        except ReachLoopTooLong as e:
+            # still running after 600 000 sweeps: not a verdict by itself (slow games exist), but the values
+            # reached so far must already respect "finals report 1" and "never above the true value"
+            v.inconclusive = "reachability loop still running after 600000 sweeps"
+            if e.values is not None:
+                finals = set(game["final_states"])
+                for s_, ph in enumerate(e.values):
+                    if s_ in finals and ph != 1:
+                        v.fail("final-not-1", f"Solver(threshold={theta:g}): final state {s_} holds {ph!r} after "
+                                              f"{e.sweeps} sweeps (loop still running)")
+                        break
+                    if isinstance(ph, (int, float)) and ph > float(pstar[s_]) + SLACK:
+                        v.fail("exceeds-true-value", f"Solver(threshold={theta:g}): state {s_} holds {ph!r} > exact "
+                                                     f"{float(pstar[s_])!r} after {e.sweeps} sweeps (loop still running)",
+                               sig="running")
+                        break
+            return v
         except Exception as e:
             o = classify_exception(e)
             v.fail("solver-raises", o.brief(), sig=f"{type(e).__name__}@{o.where}")
@@ -425,8 +458,9 @@ def check_board(case, v):
     theta = 1e-6
     try:
         phat, sweeps = run_solver_api(game, theta)
-    except BudgetExceeded:
-        raise
+    except ReachLoopTooLong:
+        v.inconclusive = "reachability loop still running after 600000 sweeps"
+        return v
     except Exception as e:
         o = classify_exception(e)
         v.fail("solver-raises", o.brief(), sig=f"{type(e).__name__}@{o.where}")
